@@ -517,7 +517,7 @@ def case_term(case, result):
 
 HEADER = r"""From Coq Require Import List Arith Bool.
 Import ListNotations.
-From Dagrt Require Import Controller.
+From Dagrt Require Import GenC04 Controller.
 Inductive xres := XOk | XRaise (e : exc) | XRec | XOther.
 Inductive xop :=
 | XReset
@@ -564,7 +564,8 @@ Fixpoint go (ph : phase) (ops : list (xop * snap)) (st : cstate) : bool :=
       let o := run_single_step st ph ro (target_of tbl) in
       seteqb ro (roots ph) && out_ok o log s sn && go ph r (o_state o)
   end.
-Definition chk (c : phase * list (xop * snap)) : bool := go (fst c) (snd c) (mkState [] [] []).
+Definition chk (c : phase * list (xop * snap)) : bool :=
+  controller_source_shape_ok && go (fst c) (snd c) (mkState [] [] []).
 Definition sn (p pl ex : list nat) : snap := (p, pl, ex).
 Definition mkc (ph : phase) (ops : list (xop * snap)) : phase * list (xop * snap) := (ph, ops).
 """
@@ -822,7 +823,7 @@ def _nontrivial(case):
 def main(tier):
     rep = common.Reporter(PID, tier)
     seed = common.seed()
-    ps = common.proof_stage(rep, PID, gen=[])
+    ps = common.proof_stage(rep, PID, gen=["c04"], extra_targets=["gen/GenC04.vo"])
     hashseeds = [0, 1, 2, 3, 4] if tier == "quick" else [0, 1, 2, 3, 4, 5]
     tmp = tempfile.mkdtemp(prefix="c04_")
     try:
@@ -870,7 +871,8 @@ def main(tier):
                     index[t] = (len(terms), hs, k)
                     terms.append(t)
         mism, n_eval, errors = [], 0, []
-        if os.path.exists(os.path.join(common.COQ, "model", "Controller.vo")):
+        if os.path.exists(os.path.join(common.COQ, "model", "Controller.vo")) and os.path.exists(
+                os.path.join(common.COQ, "gen", "GenC04.vo")):
             mism, n_eval, errors = common.eval_cases(PID, HEADER, terms, "chk", shard=400)
         else:
             errors = ["model not built"]
